@@ -33,6 +33,14 @@ def workload(ctx, g):
                     img = rng.choice([(0, 0, margin), (q, q, margin), (2 * q + 1, 2 * q + 1, margin), (3 * q, 3 * q + 5, margin),
                                       (q + 3, 2 * q, margin), (7 * q if v < 6 else q + 1, 7 * q if v < 6 else q + 1, margin), (1, 1, -1)])
                 ev.append(qrlib.enc(text, ec, cs=cs, dec=1, chk=chk, img=img, tag="boundary"))
+    # every (version, level) pair is written and decoded at least once in every tier (a decoder table slip of one pair must show)
+    if ctx.quick:
+        for v in range(1, 41):
+            for ec in range(1, 5):
+                mi = (v + ec + ctx.seed) % 3
+                cap = caps[v - 1][ec - 1][mi]
+                text, cs = qrlib.text_of(MODES[mi], max(1, cap - (v % 3)), rng)
+                ev.append(qrlib.enc(text, ec, cs=cs, dec=1, chk=0, tag="allpairs"))
     # forced masks and forced (larger) versions
     for m in range(8):
         for v in ([1, 5, 10, 27] if ctx.quick else range(1, 41, 3)):
